@@ -59,7 +59,7 @@ pub fn alpha_pick(rng: &mut Rng) -> f64 {
 }
 
 pub fn run(ctx: &mut Ctx) {
-    let n = ctx.n(2560, 40000);
+    let n = ctx.n(2560, 100000);
     ctx.run_cases("spectrum", n, false, |ctx, rng, idx| {
         let order = if idx % 8 == 0 { *rng.pick(&[2usize, 3, 40, 41]) } else { rng.range(2, 41) };
         let alpha = alpha_pick(rng);
